@@ -120,7 +120,17 @@ def sampler_selection(repo, chk, prefix):
         rt = term_of(fn, res.returned, bound, inline=False)
         empty_ret = isinstance(res.returned, (ast.List, ast.Tuple)) and not res.returned.elts
         if empty_ret or rt == ('role', 'cands') and any(term_of(fn, t, bound, inline=False) in (E('len(cands) == 0'), E('not cands')) and v for t, v in res.assumed):
-            # nothing to select from: no counter may be touched
+            # nothing to select from: no counter may be touched - and "nothing" must be what the path established
+            lc = ('call', ('name', 'len'), (('role', 'cands'),), ())
+            empties_true = (('cmp', '==', lc, ('num', 0)), ('cmp', '==', ('num', 0), lc), ('not', ('role', 'cands')), ('cmp', '<', lc, ('num', 1)), ('cmp', '<=', lc, ('num', 0)))
+            empties_false = (('cmp', '!=', lc, ('num', 0)), ('cmp', '!=', ('num', 0), lc), ('role', 'cands'), lc, ('cmp', '<', ('num', 0), lc), ('cmp', '<=', ('num', 1), lc))
+            established = any((v and term_of(fn, t, bound, inline=False) in empties_true) or (not v and term_of(fn, t, bound, inline=False) in empties_false) for t, v in res.assumed)
+            if empty_ret and not established:
+                cand_tests = [(t, v) for t, v in res.assumed if any(x == ('role', 'cands') for x in walk_term(term_of(fn, t, bound, inline=False)))]
+                if cand_tests:
+                    chk.bad(f'{prefix}.2', 'R15', fn.site(cand_tests[0][0]), f'{desc}: return []', 'an empty selection is returned on a path that has not established that there are no candidates: a batch with candidates evaluates none of them')
+                else:
+                    chk.unsure(f'{prefix}.2', 'R15', fn.site(res.returned) if hasattr(res.returned, 'lineno') else fn.site(), f'{desc}: return []', 'an empty selection is returned under a condition that is not a test of the candidate list')
             for u in res.updates:
                 if _counter_of(fn, u['target']):
                     chk.bad(f'{prefix}.1b', 'R2', fn.site(u['node']), ast.unparse(u['node'])[:100], 'the counter is modified on the path that returns no selection')
@@ -132,7 +142,8 @@ def sampler_selection(repo, chk, prefix):
             bound[counter_name] = ('role', 'counter')
             rt = term_of(fn, res.returned, bound, inline=False)
         n_main += 1
-        key = (want_obj, rt, tuple((u['kind'], ast.unparse(u['target']), ast.unparse(u['over']) if u['over'] is not None else None, ast.unparse(u['value'])) for u in res.updates))
+        key = (want_obj, rt, tuple((u['kind'], ast.unparse(u['target']), ast.unparse(u['over']) if u['over'] is not None else None, ast.unparse(u['value'])) for u in res.updates),
+               tuple(type(e).__name__ for e in res.effects), tuple((ast.unparse(t)[:60], v) for t, v in res.assumed if 'None' not in ast.unparse(t)))
         if key in seen:
             continue
         seen.add(key)
@@ -202,6 +213,25 @@ def sampler_selection(repo, chk, prefix):
                 inc_seen = True
             else:
                 chk.bad('C07.1b', 'R2', fn.site(u['node']), ast.unparse(u['node'])[:120], 'the counter may only be initialised to 0 for unseen candidates and incremented by 1 for the returned ones')
+        # 1a (presence): when the selection ranks by counter.get(candidate) a candidate without an entry has no count (None): every path that
+        # reaches the selection either initialises the unseen candidates or has established that there are none
+        init_seen = any(_counter_of(fn, u['target']) and u['kind'] == 'storeall' for u in res.updates)
+        ranks_by_get = any(isinstance(x, tuple) and len(x) == 3 and x[0] == 'attr' and x[1] == ('role', 'counter') and x[2] == 'get' for x in walk_term(rt))
+        def _does_something(lp_):
+            return any(not isinstance(x, (ast.Pass, ast.For, ast.While, ast.Name, ast.Load, ast.Store, ast.expr_context)) and isinstance(x, ast.stmt) for b_ in lp_.body for x in ast.walk(b_))
+        if ranks_by_get and not init_seen and not any(e for e in res.effects if isinstance(e, (ast.For, ast.While)) and _does_something(e)):
+            okf_ = [E(x) for x in missing_forms_src]
+            none_missing = False
+            for t, v in res.assumed:
+                tt = term_of(fn, t, bound, inline=False)
+                for mf in okf_:
+                    ln = ('call', ('name', 'len'), (mf,), ())
+                    if (not v and tt in (('cmp', '<', ('num', 0), ln), ('cmp', '!=', ln, ('num', 0)), ('cmp', '!=', ('num', 0), ln), ('cmp', '<=', ('num', 1), ln), mf, ln)) \
+                            or (v and tt in (('cmp', '==', ln, ('num', 0)), ('cmp', '==', ('num', 0), ln), ('not', mf), ('cmp', '<', ln, ('num', 1)))):
+                        none_missing = True
+            if not none_missing:
+                chk.bad('C07.1a', 'R2', site, f'{desc}: no initialisation of the unseen candidates before {ast.unparse(res.returned)[:60]}',
+                        'candidates that were never counted get no entry before the selection ranks by counter.get(candidate): their key is None (TypeError when compared with a count), so a batch with a new candidate fails instead of evaluating the least-evaluated ones')
         if not inc_seen:
             # conditional / unrecognised increments show up as opaque effects
             opaque = [e for e in res.effects if any(isinstance(x, ast.Name) and x.id in ('GLOBAL_PRIOR_COMB_COUNTS', cparam) for x in ast.walk(e))]
